@@ -39,8 +39,15 @@ def components(doc):
     return comps
 
 
+def gen_star_case(rng):
+    from .c13 import gen_star_case as _gen_star, expansion_size
+    c = _gen_star(rng)
+    while expansion_size(c) > 40:
+        c = _gen_star(rng)
+    return c
+
+
 def gen_doc_case(rng):
-    from .c13 import gen_star_case
     r = rng.random()
     c = mapcase.gen_core_case(rng, hard=False) if r < 0.7 else gen_star_case(rng)
     # more triples maps: merge a second generated document over the same sources
